@@ -851,3 +851,42 @@ def rule_changed_set(ck, repo):
               'fix_structure does not reset _changed at top level: stale numbers (possibly of deleted atoms) are recalculated later',
               file=fs.file, line=fs.lineno)
     ck.floor(R, 10)
+
+
+def rule_protocol_dunders(ck, repo, R, containers):
+    """every use of the container itself as a sized / iterable / indexable object inside its own mixins resolves in its MRO"""
+    ck.rule(R, 'the mixins a container is assembled from use the container through python protocols (len(self), iteration over self, `x in self`, self[k]); '
+               'every such use has the corresponding special method (__len__, __iter__, __contains__ or __iter__, __getitem__) in the MRO of every concrete '
+               'container that inherits the mixin. A missing one is a TypeError at the first call (e.g. the canonical string of a condensed reaction graph)')
+    need = {}
+    for cfq in containers:
+        cls = repo.cls(cfq)
+        ck.require(cls is not None, f'{cfq} not found')
+        have = set()
+        for c in repo.mro(cls):
+            have |= set(c.methods)
+        uses = {}
+        for c in repo.mro(cls):
+            for name, fs in c.methods.items():
+                f = repo.lookup(cls, name)
+                for g in fs:
+                    if g is not f and 'setter' not in ''.join(g.decorators):
+                        continue  # overridden in this MRO
+                    for n in ast.walk(g.node):
+                        if isinstance(n, ast.Call) and isinstance(n.func, ast.Name) and n.func.id == 'len' and len(n.args) == 1 and isinstance(n.args[0], ast.Name) and n.args[0].id == 'self':
+                            uses.setdefault('__len__', []).append((g, n))
+                        elif isinstance(n, (ast.For, ast.comprehension)) and isinstance(n.iter, ast.Name) and n.iter.id == 'self':
+                            uses.setdefault('__iter__', []).append((g, n if isinstance(n, ast.For) else n.iter))
+                        elif isinstance(n, ast.Compare) and any(isinstance(o, (ast.In, ast.NotIn)) for o in n.ops) and any(isinstance(x, ast.Name) and x.id == 'self' for x in n.comparators):
+                            uses.setdefault('__contains__', []).append((g, n))
+                        elif isinstance(n, ast.Subscript) and isinstance(n.value, ast.Name) and n.value.id == 'self' and isinstance(n.ctx, ast.Load):
+                            uses.setdefault('__getitem__', []).append((g, n))
+        for dunder, sites in uses.items():
+            ok = dunder in have or (dunder == '__contains__' and '__iter__' in have)
+            g, n = sites[0]
+            ck.decide(ok, R, f'{cls.name}:{dunder}', f'{len(sites)} use(s), defined',
+                      f'{cls.name} inherits {len(sites)} use(s) of `{dunder[2:-2]}` on itself (first: {g.qualname} line {getattr(n, "lineno", g.lineno)}) but no class in its MRO defines {dunder}: '
+                      f'TypeError at run time', file=g.file, line=getattr(n, 'lineno', g.lineno), func=g.qualname, construct=src(n)[:100] if isinstance(n, ast.AST) else None)
+        need[cls.name] = sorted(uses)
+    ck.count(f'{R}: protocol uses', sum(len(v) for v in need.values()))
+    ck.floor(R, 1)
